@@ -125,13 +125,15 @@ func dialogueCase(m *mon.M, i int64, r *rand.Rand) {
 	cs.harnessClose = pipe.Mark(1, "harness-close", 0)
 	close(app.quit)
 	mux.Close()
-	close(app.releaseHeld)
 	peer.mu.Lock()
 	peer.stopping = true
 	peer.cond.Broadcast()
 	peer.mu.Unlock()
 	done := chanOf(func() {
 		cs.muxErr = mux.Wait()
+		// held readers start only now: mux.loop has exited, so reading (which
+		// re-opens the window) cannot make a beyond-window packet acceptable
+		close(app.releaseHeld)
 		app.wg.Wait()
 		<-peer.done
 		<-pumpDone
@@ -147,14 +149,28 @@ func dialogueCase(m *mon.M, i int64, r *rand.Rand) {
 	// after the end, new calls fail instead of hanging or succeeding
 	var e1, e2 error
 	var ok1 bool
+	var ok3 bool
 	post := chanOf(func() {
 		ok1, _, e1 = mux.SendRequest("post", true, nil)
 		_, _, e2 = mux.OpenChannel("post", nil)
+		app.mu.Lock()
+		chs := append([]ssh.Channel(nil), app.chObjs...)
+		app.mu.Unlock()
+		for k, ch := range chs {
+			if k >= 3 {
+				break
+			}
+			if ok, err := ch.SendRequest("post", true, nil); ok || err == nil {
+				ok3 = true
+			}
+			m.Count("post_mortem_channel_requests", 1)
+		}
 	})
 	if !awaitOrJudge(m, "hang-call-after-transport-end", post, nil) {
 		return
 	}
-	if e1 == nil || e2 == nil || ok1 {
+	m.Count("post_mortem_calls", 2)
+	if e1 == nil || e2 == nil || ok1 || ok3 {
 		m.Violation("call-succeeded-after-transport-end", map[string]any{"case": cs.cls, "send_request_err": fmt.Sprint(e1), "open_channel_err": fmt.Sprint(e2)})
 	}
 
